@@ -2,10 +2,35 @@
 """Generates MANIFEST.json from the table below (keeps it valid and in one place)."""
 import json, sys
 
+NOTE_SCHED = "Merger cycles, persister rounds (held at file-layer gates), compactions and reopen points are generated operations executed by the real background goroutines under the schedule controller."
 CLAIMED = {
  "C01": ("exploration", "model-based PBT: rapid-generated histories under a schedule controller, compared with a reference ordered map after every step",
          "Generated histories of batches, merger cycles, persister rounds held at file-layer gates and drain+reopen, over in-memory / mossStore / application lower-level backings and the option grid; after every step a fresh snapshot is compared two-sidedly (Get of every key incl. never-set neighbours, full iteration as a sequence) with a reference map. Exploration is the right level: the property is universal over histories x schedules x configurations and only a sample can be executed.",
          "5.C01"),
+ "C02": ("exploration", "model-based PBT: generated histories with snapshot/iterator handles; every re-read compared with the handle's first read",
+         "Generated histories in which collection, child and store snapshots and bounded iterators are opened at generated points and re-read after later batches, merger cycles, persister rounds, full compactions (file replaced and unlinked), Collection.Close and Store.Close; each re-read (all keys by Get, full iteration, children recursively, each iterator step against a model iterator) must equal the first read. " + NOTE_SCHED,
+         "5.C02"),
+ "C04": ("exploration", "model-based PBT: generated histories with close/reopen cycles at generated points; reopened content compared with the reference prefix states",
+         "Store-backed histories with caught-up (event-confirmed drain) and early close points, persister held at gates, options changed on reopen, immediate reopen without waiting for pending unlinks; caught-up reopen must equal the full reference, early reopen must equal the reference after some batch prefix no shorter than the last completed round. " + NOTE_SCHED,
+         "5.C04"),
+ "C07": ("exploration", "model-based PBT + metamorphic check around compactions detected from Store.Stats deltas",
+         "Store-backed histories over all compaction concerns and small level parameters; collection and store content are compared with the reference after every step (so content is identical before and after each compaction); after a full compaction the store snapshot is iterated with IncludeDeletions (no marker, strictly ascending, nothing above segment level 0 at any nesting level); at the end the directory must hold one data file. " + NOTE_SCHED,
+         "5.C07"),
+ "C08": ("exploration", "model-based PBT with an order- and structure-sensitive merge operator as oracle",
+         "Histories of Set/Del/Merge over 1-4 keys under a non-commutative, non-associative operator; every read (snapshot Get and iteration after every step, store / lower-level content after every completed round, content after reopen) must equal the model's left fold. " + NOTE_SCHED,
+         "5.C08"),
+ "C10": ("exploration", "relational PBT: six read paths compared with each other on generated histories",
+         "After every step of a generated history and for every key of the universe, Collection.Get, Get on a fresh Snapshot (with and without NoCopyValue) and the entry/absence in a full iteration must agree; values returned by copying Gets are re-compared after everything is closed and unmapped. " + NOTE_SCHED,
+         "5.C10"),
+ "C11": ("exploration", "model-based PBT over a tree of child collections",
+         "Histories over child names {A,B,C} with nesting <= 3 (create, also by an empty child batch; write; delete; recreate; delete parent with grandchildren; child-only batches) under all controller steps, compaction concerns and reopen; names as a set, nil snapshots for unknown names and the full content of every child are compared with the model tree for the collection after every step, for the store after every completed round and after reopen. " + NOTE_SCHED,
+         "5.C11"),
+ "C15": ("exploration", "model-based PBT with resource accounting through /proc/self/fd and /proc/self/maps",
+         "Store-backed histories opening and closing collection, child and store snapshots and iterators relative to rounds, compactions and Close calls, with a generated final close order; open handles must keep returning their first-read content, and after the last close no descriptor or mapping of the case directory may remain and the directory must hold one data file. " + NOTE_SCHED,
+         "5.C15"),
+ "C20": ("exploration", "model-based PBT: Stats() sampled at every quiescent step, implication checked against the lower level's own snapshot and a reopened copy",
+         "Histories incl. child-only and delete-only batches over mossStore and an application lower level; whenever the three dirty gauges are zero the lower level must equal the full reference (and a copy of the directory must reopen to it); after the last batch the gauges must reach zero within 6 controller cycles. " + NOTE_SCHED,
+         "5.C20"),
 }
 NOT_YET = {}
 
